@@ -1,0 +1,15 @@
+//go:build verif
+
+package syncer
+
+// VerifGcNow runs one collector pass of the disk cache synchronously.
+func (sc *StoreChannel) VerifGcNow() {
+	sc.storer.VerifGcNow()
+}
+
+// VerifNewOutput performs the tool's real start-up bookkeeping for one syncer
+// (run-id lookup on the source, bisync namespace resolution / mode migration,
+// UpdateCheckpoint) and returns the output it would replay with.
+func VerifNewOutput(cfg SyncerConfig) (*RedisOutput, error) {
+	return NewSyncer(cfg).(*syncer).newOutput()
+}
